@@ -82,7 +82,7 @@ func c02Check(c *vk.Ctx, w *gmWorld, op string, before map[string]sdk.Coins) boo
 
 func runC02(c *vk.Ctx) {
 	c.R.Rule = "cases = histories over a zoo of 3-6 pools (balancer 2..8 assets with weights 1..2^20, stableswap 2..5 assets with scaling factors 1..1e6, a concentrated pool as router hop; spread factors 0..10%; random per-pair taker fees 0..5%, default taker fee and reduced-fee whitelist in a third of the histories) with 5 actors: JoinPool, JoinSwapExternAmountIn, JoinSwapShareAmountOut, ExitPool, ExitSwapShareAmountIn, ExitSwapExternAmountOut, single / multi-hop / split-route swaps exact-in and exact-out (pool-manager and legacy gamm messages), direct bank sends to pool accounts. After EVERY message (successful or rejected): pool account balance = reported reserves + direct sends, share supply = reported shares = Σ holders, supply of every traded token unchanged, and the per-message net balance change over all actors, pools and the taker-fee collector is zero per denom. distinct_nontrivial counts distinct (message type, pool kind, outcome, taker fee charged?, #hops) tuples."
-	nHist := c.N(120, 9600)
+	nHist := c.N(960, 9600)
 	opsPer := c.N(40, 150)
 	c.Cases("history", nHist, func(i int, r *vk.Rng) {
 		w := newGMWorld(c, r)
